@@ -523,3 +523,124 @@ mod tests {
         }
     }
 }
+
+/// A real [`Identify`] instance without a network (`--cfg litep2p_verif` only).
+#[cfg(litep2p_verif)]
+pub mod verif {
+    use super::*;
+    use crate::{
+        addresses::PublicAddresses,
+        crypto::ed25519::Keypair,
+        protocol::SubstreamKeepAlive,
+        transport::{
+            manager::{handle::InnerTransportManagerCommand, TransportManagerHandle},
+            KEEP_ALIVE_TIMEOUT,
+        },
+    };
+    use parking_lot::RwLock;
+    use std::sync::{atomic::AtomicUsize, Arc};
+
+    /// Payload limit of the identify codec.
+    pub const IDENTIFY_PAYLOAD_SIZE: usize = super::IDENTIFY_PAYLOAD_SIZE;
+
+    /// What `on_outbound_substream` extracted from a remote identify message.
+    #[derive(Debug, Clone, PartialEq, Eq)]
+    pub struct IdentifyInfo {
+        /// Protocol version.
+        pub protocol_version: Option<String>,
+        /// User agent.
+        pub user_agent: Option<String>,
+        /// Supported protocols, sorted.
+        pub supported_protocols: Vec<String>,
+        /// Accepted listen addresses.
+        pub listen_addresses: Vec<Multiaddr>,
+        /// Accepted observed address.
+        pub observed_address: Option<Multiaddr>,
+    }
+
+    /// Identify protocol instance plus what keeps its service alive.
+    pub struct IdentifyHarness {
+        identify: Identify,
+        _cmd_rx: tokio::sync::mpsc::Receiver<InnerTransportManagerCommand>,
+        _events: Box<dyn Stream<Item = IdentifyEvent> + Send + Unpin>,
+    }
+
+    impl IdentifyHarness {
+        /// Create the protocol instance for a fresh local key.
+        pub fn new(protocols: Vec<ProtocolName>) -> Self {
+            let keypair = Keypair::generate();
+            let public = PublicKey::Ed25519(keypair.public());
+            let local_peer = public.to_peer_id();
+            let (cmd_tx, _cmd_rx) = tokio::sync::mpsc::channel(64);
+            let handle = TransportManagerHandle::new(
+                local_peer,
+                Arc::new(RwLock::new(HashMap::new())),
+                cmd_tx,
+                HashSet::new(),
+                Default::default(),
+                PublicAddresses::new(local_peer),
+            );
+            let (service, _) = TransportService::new(
+                local_peer,
+                ProtocolName::from(PROTOCOL_NAME),
+                Vec::new(),
+                Arc::new(AtomicUsize::new(0usize)),
+                handle,
+                KEEP_ALIVE_TIMEOUT,
+                SubstreamKeepAlive::No,
+            );
+            let (mut config, events) = Config::new("/ipfs/1.0.0".to_string(), None);
+            config.public = Some(public);
+            config.protocols = protocols;
+
+            Self {
+                identify: Identify::new(service, config),
+                _cmd_rx,
+                _events: events,
+            }
+        }
+
+        /// Local peer id of the instance.
+        pub fn local_peer_id(&self) -> PeerId {
+            self.identify.local_peer_id
+        }
+
+        /// `on_outbound_substream` followed by the completion of the read future it queued.
+        pub async fn outbound(
+            &mut self,
+            peer: PeerId,
+            substream: Substream,
+        ) -> Result<IdentifyInfo, String> {
+            self.identify.on_outbound_substream(
+                peer,
+                ProtocolName::from(PROTOCOL_NAME),
+                SubstreamId::from(0usize),
+                substream,
+            );
+
+            match self.identify.pending_outbound.next().await {
+                Some(Ok(response)) => {
+                    let mut supported_protocols: Vec<String> =
+                        response.supported_protocols.into_iter().collect();
+                    supported_protocols.sort();
+
+                    Ok(IdentifyInfo {
+                        protocol_version: response.protocol_version,
+                        user_agent: response.user_agent,
+                        supported_protocols,
+                        listen_addresses: response.listen_addresses,
+                        observed_address: response.observed_address,
+                    })
+                }
+                Some(Err(error)) => Err(format!("{error:?}")),
+                None => Err("no pending outbound future".to_string()),
+            }
+        }
+
+        /// `on_inbound_substream` followed by the completion of the send future it queued.
+        pub async fn inbound(&mut self, peer: PeerId, substream: Substream) {
+            self.identify.on_inbound_substream(peer, ProtocolName::from(PROTOCOL_NAME), substream);
+            let _ = self.identify.pending_inbound.next().await;
+        }
+    }
+}
